@@ -140,6 +140,8 @@ int main(int argc, char** argv) {
         if (argw >= 4 || (argw == 2 && (nv >= 0 ? vi % 3 == 0 : vi % 970 == 0)))
           for (force_align = 0; force_align < 16; force_align++) { one(img, hl, hl, 0xA5); if (!str) one(img, hl, hl + 3, 0x5A); }
         force_align = -1;
+        /* the complete head followed by every possible next byte: a FINISHED result depends on nothing beyond what it reports as read */
+        if (vi == 0 && !str) for (unsigned nb = 0; nb < 256; nb++) one(img, hl, hl + 1, (unsigned char)nb);
       } else {
         one(img, hl, hl, 0xA5);
         one(img, hl, hl - 1, 0xA5);
